@@ -80,14 +80,14 @@ def generate(tier, rng):
                 if unit_only or int_ty:
                     c.op(e.id, 'discrs', 'as-cast')
     # a repr written for the GENERATED discriminants enum must not leak into from_repr's parameter type
-    for j, own in enumerate((None,)):
+    for j, (own, dattr) in enumerate(((None, 'repr(u8)'), ('u8', 'repr(align(2))'), ('i16', 'repr(align(4))'))):
         lays = reprcorpus.layouts(own, 4)
         e = reprcorpus.make_enum('c06d%d' % j, 'EnC06d%d' % j, 4, own, 'gapped', lays['gapped'], 'middle', True, ['FromRepr', 'EnumDiscriminants'], ['repr'])
-        e.extra['enum_attrs'] = ['#[strum_discriminants(repr(u8))]']
-        e.extra['shape'] = 'with strum_discriminants(repr(u8)) own=%s' % own
+        e.extra['enum_attrs'] = ['#[strum_discriminants(%s)]' % dattr]
+        e.extra['shape'] = 'with strum_discriminants(%s) own=%s' % (dattr, own)
         e.extra['no_noise'] = True
         c.add(e)
-        for x in (0, 1, 2, 11, 12, 255, 256, 257, 267, 65535):
+        for x in ((0, 1, 2, 11, 12, 255, 256, 257, 267, 65535) if own is None else (0, 1, 2, 11, 12, 127, 255)):
             c.op(e.id, 'repr %d' % x, 'disc-repr-leak')
         c.op(e.id, 'discrs', 'as-cast')
     return c
